@@ -75,6 +75,14 @@ def ready_time_functions(mod):
 
 CARRIERS = ('nsync_mu_s_.word', 'nsync_cv_s_.word', 'nsync_waiter_s.waiting', 'waiter.remove_count', 'nsync_note_s_.notified', 'nsync_counter_s_.value', 'futex.i')
 
+_ALLOC = {}
+def _allocators(mod):
+    """malloc & co. and the library's allocating wrappers (shared with C19)"""
+    if id(mod) not in _ALLOC:
+        from .C19 import allocator_functions
+        _ALLOC[id(mod)] = allocator_functions(mod)
+    return _ALLOC[id(mod)]
+
 def _helper_actuals(mod, eng, name, seen=None):
     """address classes of the actual arguments bound to the atomic-address parameters of generic helper `name`, following helpers that
     forward their own parameter"""
@@ -264,8 +272,12 @@ def classify(ctx, rep):
                     free[key] = 'read under counter_mu'
                 else:
                     free[key] = 'report-only read of the counter value'
-            else:
+            elif ac['kind'] == 'call' and ac['inst'].callee in _allocators(mod):
                 free[key] = 'initialising store to a counter not yet published'
+            else:
+                # a store to the value of a published counter (an update written as load + store under counter_mu, say): the lock-free poll
+                # that sees the new value does not take the mutex, so the store itself must publish
+                need(key, 'release', 'a store that changes the value of a published counter happens-before the lock-free poll that sees it', w)
         elif lf == 'nsync_counter_s_.waited':
             free[key] = 'debug flag used only by an assertion'
         elif lf == 'futex.i':
